@@ -56,6 +56,10 @@ const maxMemoryCacheSize = 10 * 1000 * 1000
 
 var ErrChunkSignatureMismatch = errors.New("chunk signature mismatch")
 
+// ErrMalformedChunkedBody is returned when the framing of an aws-chunked upload
+// is inconsistent (chunk data is not followed by \r\n).
+var ErrMalformedChunkedBody = errors.New("malformed aws-chunked body")
+
 // ErrTrailerChecksumMismatch is returned when the checksum declared in the
 // trailer of an aws-chunked upload does not match the received payload.
 // Its text is the S3 error code reported to the client.
@@ -999,9 +1003,9 @@ func (r *awsChunkReadCloser) Read(p []byte) (n int, err error) {
 					return 0, err
 				}
 			} else {
-				_, err := r.innerBuf.Discard(2) // Discard the final \r\n
+				err := r.expectCRLF() // the final \r\n
 				if err != nil {
-					return 0, unexpectedEOF(err)
+					return 0, err
 				}
 			}
 			return 0, io.EOF // End of the chunked transfer
@@ -1021,9 +1025,9 @@ func (r *awsChunkReadCloser) Read(p []byte) (n int, err error) {
 	}
 	r.chunkBytesRemaining -= int64(n)
 	if r.chunkBytesRemaining == 0 {
-		_, err := r.innerBuf.Discard(2) // Discard the trailing \r\n
+		err := r.expectCRLF() // the \r\n that ends the chunk data
 		if err != nil {
-			return 0, unexpectedEOF(err)
+			return 0, err
 		}
 		if !r.skipChunkValidation {
 			err = r.validateSignature()
@@ -1033,6 +1037,21 @@ func (r *awsChunkReadCloser) Read(p []byte) (n int, err error) {
 		}
 	}
 	return n, err
+}
+
+// expectCRLF consumes the \r\n that must follow chunk data and the final chunk.
+// Anything else means the chunk sizes do not describe the body (a size that was
+// altered in transit, for instance), which only the chunk signature would
+// otherwise reveal - and that is not checked without credentials.
+func (r *awsChunkReadCloser) expectCRLF() error {
+	var crlf [2]byte
+	if _, err := io.ReadFull(r.innerBuf, crlf[:]); err != nil {
+		return unexpectedEOF(err)
+	}
+	if crlf[0] != '\r' || crlf[1] != '\n' {
+		return ErrMalformedChunkedBody
+	}
+	return nil
 }
 
 // unexpectedEOF turns the end of the underlying body into an error: an aws-chunked
